@@ -6,7 +6,7 @@ from ..core import AnalysisError, norm, walk_no_nested
 from ..flow import Aff, Facts, cmp_to_constraints
 
 META = {
-    'design_ref': 'DESIGN.md §3 C18',
+    'design_ref': 'DESIGN.md §5 C18',
     'technique': 'regular-language equivalence for the command regex; path-sensitive affine-form analysis of patches_from_ed_script (command x range table with module constants, difference-bound entailment for slice validity); CFG must-pass-through for the text-block terminator in the function or its helper; tuple-order agreement with patch_lines',
     'level_text': 'Static decision: the command regex accepts exactly the ed command lines on ASCII input; for every command '
                   'letter and range form every path through the loop body either raises ValueError or yields the slice the ed '
